@@ -1491,8 +1491,15 @@ def judge(r, sink):
             return SIG_OUTER
         return None
     # ---- correspondence: implementation vs model of the repaired comparer
-    if r.impl != r.model:
+    # compared: accepted vs rejected. HOW a difference is rejected (the exception's class) is not part of the property and a
+    # harmless rewrite may change it (StopIteration -> AssertionError): a differing class family is only counted
+    if (r.impl == "ok") != (r.model == "ok"):
         sink.corr_mismatch("Comparer.compare() vs Spydr.Compare.compare", x, r.impl + "/" + r.impl_cls, r.model, signature=deviation())
+    elif r.impl != r.model:
+        try:
+            sink.dist("rejection-class differs (not compared): impl %s, model %s" % (r.impl, r.model))
+        except Exception:
+            pass
     # ---- P, accept half: a faithful copy is accepted.  Faithful = equal CNetlist (theorem compare_refl),
     #      or — for a fully named original — same examined view and same identifier fields, in any order
     #      of siblings (theorem compare_complete)
@@ -2045,7 +2052,7 @@ def run(ctx):
         "domain of the 'never raises' half: additionally ports have at least one pin (the comparer's own DRC assertion) and "
         "the netlist is self-contained",
         "property values are JSON-like and Python == on them coincides with equality of their JSON text (no 1/True, no floats)",
-        "exception class family is compared (assert / key / index / other=AttributeError,StopIteration), never the message",
+        "accepted vs rejected is compared; the exception class family (assert / key / index / other) is only counted, the message never looked at",
     ]
     ctx.partial_notes = []
     if not ok:
